@@ -10,10 +10,6 @@ import (
 	"fmt"
 	"sort"
 	"strings"
-
-	"github.com/cloudwego/eino/schema"
-
-	"verifharness/internal/mon"
 )
 
 // ---------------------------------------------------------------------------
@@ -52,17 +48,25 @@ const (
 var kindNames = []string{"val", "srcErr", "convErr", "foreignErr", "recvAfterClosed", "EOF"}
 
 // elem is one expected / observed stream item.
+// Dyn/Src/Seq/Conv/Val are the visible content (a nil item carries no identity: Src = Seq = -1);
+// org is model-only: the seq of the source item this element descends from (never compared
+// with an observation).
 type elem struct {
 	K    uint8
+	Dyn  uint8
 	Src  int32
 	Seq  int32
 	Conv int32
 	Val  uint64
+	org  int32
 }
 
 func (e elem) String() string {
 	switch e.K {
 	case eVal:
+		if e.Dyn != dTok {
+			return fmt.Sprintf("v<%s>(%d.%d:%x)", dynNames[e.Dyn], e.Src, e.Seq, e.Val&0xffff)
+		}
 		return fmt.Sprintf("v(%d.%d:%x)", e.Src, e.Seq, e.Val&0xffff)
 	case eSrcErr:
 		return fmt.Sprintf("E(%d.%d)", e.Src, e.Seq)
@@ -79,7 +83,7 @@ func (e elem) eq(o elem) bool {
 	if e.K == ePanic || e.K == eRecvClosed || e.K == eEOF {
 		return true
 	}
-	return e == o
+	return e.Dyn == o.Dyn && e.Src == o.Src && e.Seq == o.Seq && e.Conv == o.Conv && e.Val == o.Val
 }
 
 func mix64(z uint64) uint64 {
@@ -98,13 +102,35 @@ type srcSpec struct {
 	ID    int32  `json:"id"`
 	Pipe  bool   `json:"pipe"`
 	Cap   int    `json:"cap,omitempty"`
-	Items []int8 `json:"items"` // kind per item: 0 value, 1 error only, 2 error and chunk both set
+	Elem  etype  `json:"elem,omitempty"` // element type of the stream (0: tok)
+	Items []int8 `json:"items"`          // kind per item: 0 value, 1 error only, 2 error and chunk both set
+	Dyn   []int8 `json:"dyn,omitempty"`  // dynamic kind of the chunk of every item (absent: tok)
+	// array sources: the reader is created over buf[Off : Off+len(Items) : Off+Cap] of caller-owned buffer Buf
+	Buf      int `json:"buf,omitempty"`
+	Off      int `json:"off,omitempty"`
+	SliceCap int `json:"slicecap,omitempty"`
 	// writer script (Pipe only)
 	Pace       int  `json:"pace,omitempty"`       // 0 fast, 1 gosched, 2 sleepy
 	Continue   bool `json:"continue,omitempty"`   // keep sending after Send reported closed
 	NeverClose bool `json:"neverClose,omitempty"` // writer does not Close during the run (harness closes it afterwards)
 	Early      bool `json:"early,omitempty"`      // writer goroutine started while the tree is still being built
 	AfterEnds  bool `json:"afterEnds,omitempty"`  // writer starts sending only after all readers derived from it were closed (they all close at once)
+}
+
+// elemAt: what the producer sends as item i (visible content + model-only origin).
+func (s *srcSpec) elemAt(i int) elem {
+	if s.Items[i] == 1 {
+		return elem{K: eSrcErr, Src: s.ID, Seq: int32(i), org: int32(i)}
+	}
+	d := dTok
+	if len(s.Dyn) > 0 {
+		d = uint8(s.Dyn[i])
+	}
+	e := elem{K: eVal, Dyn: d, Src: -1, Seq: -1, org: int32(i)}
+	if !nilish(d) {
+		e.Src, e.Seq, e.Val = s.ID, int32(i), val0(s.ID, int32(i))
+	}
+	return e
 }
 
 const (
@@ -121,41 +147,53 @@ type convSpec struct {
 	Fail  int    `json:"fail"`  // of 16
 	Panic int    `json:"panic"` // of 16
 	Wrap  bool   `json:"wrap"`  // return ErrNoValue wrapped with %w
+	// element types: the converter is a func(From) (To, error)
+	From   etype `json:"from,omitempty"`
+	To     etype `json:"to,omitempty"`
+	NilOut int   `json:"nilOut,omitempty"` // of 16: share of the passed items mapped to a nil value of To (if To admits one)
+	Keep   bool  `json:"keep,omitempty"`   // keep the dynamic kind of the input when To admits it
 }
 
-func (c *convSpec) beh(src, seq int32) int {
-	h := int(mix64(c.Seed^val0(src, seq)) % 16)
-	switch {
-	case h < c.Drop:
-		return bDrop
-	case h < c.Drop+c.Fail:
-		return bFail
-	case h < c.Drop+c.Fail+c.Panic:
-		return bPanic
+// apply is the item-wise semantics of the converter: a pure function of the *visible*
+// content of the input chunk (a nil chunk carries no identity, so all nil chunks of one
+// kind are treated alike). Used by the real converter (convFn) and by the model.
+func (c *convSpec) apply(in elem) (int, elem) {
+	h := mix64(c.Seed ^ mix64(uint64(in.Dyn)<<56^uint64(uint32(in.Src))<<32^uint64(uint32(in.Seq))))
+	switch x := int(h % 16); {
+	case x < c.Drop:
+		return bDrop, elem{}
+	case x < c.Drop+c.Fail:
+		return bFail, elem{}
+	case x < c.Drop+c.Fail+c.Panic:
+		return bPanic, elem{}
 	}
-	return bPass
+	al, nn := allowedDyn[c.To], nNilish[c.To]
+	var d uint8
+	switch {
+	case nn > 0 && int((h>>8)%16) < c.NilOut:
+		d = al[int((h>>16)%uint64(nn))]
+	case c.Keep && !nilish(in.Dyn) && admits(c.To, in.Dyn):
+		d = in.Dyn
+	default:
+		non := al[nn:]
+		d = non[int((h>>24)%uint64(len(non)))]
+	}
+	if nilish(d) {
+		return bPass, elem{K: eVal, Dyn: d, Src: -1, Seq: -1}
+	}
+	return bPass, elem{K: eVal, Dyn: d, Src: in.Src, Seq: in.Seq, Val: c.mapVal(in.Val)}
+}
+
+func admits(et etype, d uint8) bool {
+	for _, x := range allowedDyn[et] {
+		if x == d {
+			return true
+		}
+	}
+	return false
 }
 
 func (c *convSpec) mapVal(v uint64) uint64 { return mix64(v ^ c.Seed) }
-
-// fn is the real converter handed to eino: a pure function (no shared state, so
-// it adds no synchronisation of its own).
-func (c *convSpec) fn() func(tok) (tok, error) {
-	return func(t tok) (tok, error) {
-		switch c.beh(t.Src, t.Seq) {
-		case bDrop:
-			if c.Wrap {
-				return tok{Src: -7}, fmt.Errorf("skipped by c%d: %w", c.ID, schema.ErrNoValue)
-			}
-			return tok{Src: -7}, schema.ErrNoValue
-		case bFail:
-			return tok{Src: -8}, &convErr{Conv: c.ID, Src: t.Src, Seq: t.Seq}
-		case bPanic:
-			panic(panicVal{Conv: c.ID, Src: t.Src, Seq: t.Seq})
-		}
-		return tok{Src: t.Src, Seq: t.Seq, Val: c.mapVal(t.Val)}, nil
-	}
-}
 
 type opSpec struct {
 	Kind string    `json:"op"` // pipe | array | copy | merge | convert | skip
@@ -180,8 +218,18 @@ type endSpec struct {
 	Pace   int  `json:"pace,omitempty"`
 }
 
+// bufSpec: a slice owned by the caller; array sources are windows of it, every cell not
+// covered by a window holds a filler item. It must be unchanged after the run.
+type bufSpec struct {
+	Elem etype `json:"elem,omitempty"`
+	Len  int   `json:"len"`
+}
+
 type tree struct {
 	Procs int       `json:"gomaxprocs"`
+	Typed bool      `json:"typed,omitempty"`
+	Probe string    `json:"probe,omitempty"`
+	Bufs  []bufSpec `json:"bufs,omitempty"`
 	Ops   []opSpec  `json:"ops"`
 	Ends  []endSpec `json:"ends"`
 
@@ -212,8 +260,19 @@ type strand struct {
 	// seqs of the source's items dropped (no-value) by converters on this path so far, and the
 	// subset of them dropped *below* a forwarder goroutine (such an item is consumed by the
 	// forwarder without a send attempt, i.e. without the forwarder looking at `closed`)
+	//
+	// The forwarder of a converter that is itself the merge input looks at `closed` whenever its
+	// own converter drops an item (/repo b8aefe9); it does not when the drop happens further
+	// down: in a converter below that converter, below a forwarded Copy child, or below a merge
+	// whose reader is consumed by another forwarder. last = drops of the most recent converter
+	// on the path; sdrops = "shallow" drops (by a converter that is directly the input of a
+	// merge, no further forwarder downstream); fdrops = all other drops below a forwarder.
 	drops  []int32
+	last   []int32
 	fdrops []int32
+	sdrops []int32
+	// a converter on this path is handed a nil interface value as its input chunk
+	NilIn bool
 }
 
 func (s *strand) seal() {
@@ -227,6 +286,7 @@ func (s *strand) seal() {
 }
 
 type rmodel struct {
+	et       etype
 	typ      rtyp
 	depth    int
 	strands  []strand
@@ -250,7 +310,8 @@ type model struct {
 	fwd      map[int32]int // pipe source -> number of forwarder goroutines downstream
 	nFwd     int
 	canPanic map[int32]bool
-	fdrop    map[int32]map[int32]bool // pipe source -> seqs dropped by a converter below a forwarder
+	fdrop    map[int32]map[int32]bool // pipe source -> seqs dropped by a converter deep below a forwarder
+	sdrop    map[int32]map[int32]bool // pipe source -> seqs dropped only by converters directly below a merge (nothing forwarded further down)
 	derived  map[int32][]int          // pipe source -> indices into tree.Ends
 	endOf    map[int]int              // reader id -> index into Ends
 	nStatic  int                      // merges using the static select (2..5 streams)
@@ -286,9 +347,9 @@ func srcStrand(s *srcSpec) strand {
 	st := strand{Src: s.ID}
 	for i, k := range s.Items {
 		if k == 0 {
-			st.Els = append(st.Els, elem{K: eVal, Src: s.ID, Seq: int32(i), Val: val0(s.ID, int32(i))})
+			st.Els = append(st.Els, s.elemAt(i))
 		} else {
-			st.Els = append(st.Els, elem{K: eSrcErr, Src: s.ID, Seq: int32(i)})
+			st.Els = append(st.Els, elem{K: eSrcErr, Src: s.ID, Seq: int32(i), org: int32(i)})
 		}
 	}
 	st.seal()
@@ -300,21 +361,26 @@ func srcStrand(s *srcSpec) strand {
 // error items at that position, error items pass untouched; a converter panic
 // ends the strand with one foreign error item (the forwarder surfaces it).
 func convStrand(in strand, c *convSpec) strand {
-	out := strand{Src: in.Src, Pan: in.Pan, conv: append(append([]int32{}, in.conv...), c.ID),
-		drops: append([]int32{}, in.drops...), fdrops: in.fdrops}
+	out := strand{Src: in.Src, Pan: in.Pan, NilIn: in.NilIn, conv: append(append([]int32{}, in.conv...), c.ID),
+		drops: append([]int32{}, in.drops...), fdrops: in.fdrops, sdrops: in.sdrops}
 	for _, e := range in.Els {
 		if e.K != eVal {
 			out.Els = append(out.Els, e)
 			continue
 		}
-		switch c.beh(e.Src, e.Seq) {
+		if e.Dyn == dNil {
+			out.NilIn = true
+		}
+		beh, o := c.apply(e)
+		o.org = e.org
+		switch beh {
 		case bPass:
-			e.Val = c.mapVal(e.Val)
-			out.Els = append(out.Els, e)
+			out.Els = append(out.Els, o)
 		case bDrop:
-			out.drops = append(out.drops, e.Seq)
+			out.drops = append(out.drops, e.org)
+			out.last = append(out.last, e.org)
 		case bFail:
-			out.Els = append(out.Els, elem{K: eConvErr, Src: e.Src, Seq: e.Seq, Conv: c.ID})
+			out.Els = append(out.Els, elem{K: eConvErr, Src: e.Src, Seq: e.Seq, Conv: c.ID, org: e.org})
 		case bPanic:
 			out.Els = append(out.Els, elem{K: ePanic})
 			out.Pan = true
@@ -344,10 +410,10 @@ func (m *model) addOp(idx int, op *opSpec) {
 	switch op.Kind {
 	case "pipe":
 		m.srcs[op.Src.ID] = op.Src
-		m.readers[op.Out[0]] = rmodel{typ: tStream, strands: []strand{srcStrand(op.Src)}, up: []int32{op.Src.ID}}
+		m.readers[op.Out[0]] = rmodel{et: op.Src.Elem, typ: tStream, strands: []strand{srcStrand(op.Src)}, up: []int32{op.Src.ID}}
 	case "array":
 		m.srcs[op.Src.ID] = op.Src
-		m.readers[op.Out[0]] = rmodel{typ: tArray, strands: []strand{srcStrand(op.Src)}, static: true}
+		m.readers[op.Out[0]] = rmodel{et: op.Src.Elem, typ: tArray, strands: []strand{srcStrand(op.Src)}, static: true}
 	case "copy":
 		in := m.readers[op.In[0]]
 		for _, o := range op.Out {
@@ -365,7 +431,10 @@ func (m *model) addOp(idx int, op *opSpec) {
 		}
 	case "convert":
 		in := m.readers[op.In[0]]
-		c := rmodel{typ: tConv, depth: in.depth + 1, static: in.static, up: in.up}
+		if in.et != op.Conv.From {
+			panic("harness: converter input type mismatch")
+		}
+		c := rmodel{et: op.Conv.To, typ: tConv, depth: in.depth + 1, static: in.static, up: in.up}
 		for _, s := range in.strands {
 			c.strands = append(c.strands, convStrand(s, op.Conv))
 		}
@@ -382,17 +451,30 @@ func (m *model) addOp(idx int, op *opSpec) {
 			m.readers[op.Out[0]] = m.readers[op.In[0]]
 			return
 		}
-		c := rmodel{typ: tMulti}
+		c := rmodel{typ: tMulti, et: m.readers[op.In[0]].et}
 		streams, arrLen := 0, 0
 		for _, i := range op.In {
 			in := m.readers[i]
+			if in.et != c.et {
+				panic("harness: merge of readers of different element types")
+			}
 			if in.depth+1 > c.depth {
 				c.depth = in.depth + 1
 			}
 			ins := cloneStrands(in.strands)
 			if in.typ == tConv || in.typ == tChild {
+				// a forwarder goroutine is started for this input
 				for k := range ins {
-					ins[k].fdrops = append(append([]int32{}, ins[k].fdrops...), ins[k].drops...)
+					st := &ins[k]
+					deep := st.drops
+					var shallow []int32
+					if in.typ == tConv {
+						deep, shallow = st.drops[:len(st.drops)-len(st.last)], st.last
+					}
+					fd := append([]int32{}, st.fdrops...)
+					fd = append(fd, deep...)
+					fd = append(fd, st.sdrops...) // shallow so far, but now with another forwarder downstream
+					st.fdrops, st.sdrops = fd, append([]int32{}, shallow...)
 				}
 			}
 			c.strands = append(c.strands, ins...)
@@ -433,7 +515,7 @@ func (m *model) addOp(idx int, op *opSpec) {
 }
 
 func newModel() *model {
-	return &model{srcs: map[int32]*srcSpec{}, fwd: map[int32]int{}, canPanic: map[int32]bool{}, fdrop: map[int32]map[int32]bool{},
+	return &model{srcs: map[int32]*srcSpec{}, fwd: map[int32]int{}, canPanic: map[int32]bool{}, fdrop: map[int32]map[int32]bool{}, sdrop: map[int32]map[int32]bool{},
 		derived: map[int32][]int{}, endOf: map[int]int{}}
 }
 
@@ -455,299 +537,19 @@ func (m *model) finish(t *tree) {
 				}
 				m.fdrop[st.Src][q] = true
 			}
-		}
-	}
-}
-
-// ---------------------------------------------------------------------------
-// generator
-
-type gen struct {
-	r      *mon.Rand
-	t      *tree
-	m      *model
-	pool   []int
-	nextR  int
-	nSrc   int32
-	nConv  int32
-	nItems int
-}
-
-const (
-	maxSources   = 16
-	maxEndpoints = 10
-	maxDepth     = 3
-)
-
-func (g *gen) newReader() int { g.nextR++; return g.nextR - 1 }
-
-func (g *gen) add(op opSpec) {
-	g.t.Ops = append(g.t.Ops, op)
-	g.m.addOp(len(g.t.Ops)-1, &g.t.Ops[len(g.t.Ops)-1])
-}
-
-func (g *gen) newSource() int { return g.newSourceWith(nil) }
-
-// newSourceWith: tweak may adjust the freshly drawn spec before it is added to the tree.
-func (g *gen) newSourceWith(tweak func(*srcSpec)) int {
-	r := g.r
-	s := &srcSpec{ID: g.nSrc, Pipe: r.Prob(0.68)}
-	g.nSrc++
-	n := 0
-	switch x := r.Intn(100); {
-	case x < 5:
-		n = 0
-	case x < 70:
-		n = r.Range(1, 6)
-	case x < 93:
-		n = r.Range(7, 12)
-	default:
-		n = r.Range(14, 30)
-	}
-	if g.nItems > 160 && n > 3 {
-		n = r.Range(0, 3)
-	}
-	g.nItems += n
-	s.Items = make([]int8, n)
-	kind := "array"
-	if s.Pipe {
-		kind = "pipe"
-		s.Cap = r.Intn(5)
-		for i := range s.Items {
-			switch x := r.Intn(100); {
-			case x < 9:
-				s.Items[i] = 1
-			case x < 14:
-				s.Items[i] = 2
-			}
-		}
-		s.Pace = []int{0, 0, 0, 1, 1, 2}[r.Intn(6)]
-		s.Continue = r.Bool()
-		s.NeverClose = r.Prob(0.06)
-		s.Early = r.Bool()
-	}
-	if tweak != nil {
-		tweak(s)
-		kind = "pipe"
-		if !s.Pipe {
-			kind = "array"
-		}
-	}
-	out := g.newReader()
-	g.add(opSpec{Kind: kind, Out: []int{out}, Src: s})
-	return out
-}
-
-// input takes a reader of depth <= maxD out of the pool or creates a new source.
-func (g *gen) input(maxD int) int {
-	var cand []int
-	for i, id := range g.pool {
-		if g.m.readers[id].depth <= maxD {
-			cand = append(cand, i)
-		}
-	}
-	fromPool := len(cand) > 0 && (g.r.Prob(0.55) || g.nSrc >= maxSources)
-	if fromPool {
-		i := cand[g.r.Intn(len(cand))]
-		id := g.pool[i]
-		g.pool = append(g.pool[:i], g.pool[i+1:]...)
-		return id
-	}
-	return g.newSource()
-}
-
-func (g *gen) convert(in int, panicky bool) int { return g.convertWith(in, panicky, nil) }
-
-func (g *gen) convertWith(in int, panicky bool, tweak func(*convSpec)) int {
-	r := g.r
-	c := &convSpec{ID: g.nConv, Seed: r.Uint64(), Wrap: r.Prob(0.3)}
-	g.nConv++
-	switch r.Intn(5) {
-	case 0: // pure map
-	case 1:
-		c.Drop = r.Range(2, 8)
-	case 2:
-		c.Fail = r.Range(1, 5)
-	default:
-		c.Drop = r.Range(1, 5)
-		c.Fail = r.Range(0, 3)
-	}
-	if panicky {
-		c.Panic = r.Range(2, 6)
-	}
-	if tweak != nil {
-		tweak(c)
-	}
-	out := g.newReader()
-	g.add(opSpec{Kind: "convert", In: []int{in}, Out: []int{out}, Conv: c})
-	return out
-}
-
-func (g *gen) step() {
-	r := g.r
-	switch x := r.Intn(100); {
-	case x < 42: // merge
-		m := 0
-		switch y := r.Intn(100); {
-		case y < 3:
-			m = 1
-		case y < 55:
-			m = r.Range(2, 4)
-		case y < 78:
-			m = r.Range(5, 6)
-		default:
-			m = r.Range(7, 8)
-		}
-		var ins []int
-		for len(ins) < m {
-			in := g.input(maxDepth - 1)
-			if g.m.readers[in].depth <= 1 && r.Prob(0.22) {
-				in = g.convert(in, false)
-			}
-			if m >= 2 && g.m.readers[in].depth <= 1 && len(g.m.readers[in].strands) == 1 && !g.m.readers[in].strands[0].Pan && r.Prob(0.14) {
-				// a panicking converter is only ever placed where a forwarder goroutine will run it:
-				// on a single-strand input that goes (through converters only) straight into a merge.
-				in = g.convert(in, true)
-				if g.m.readers[in].depth <= 1 && r.Prob(0.3) {
-					in = g.convert(in, false)
+			for _, q := range st.sdrops {
+				if m.sdrop[st.Src] == nil {
+					m.sdrop[st.Src] = map[int32]bool{}
 				}
-			}
-			ins = append(ins, in)
-		}
-		out := g.newReader()
-		g.add(opSpec{Kind: "merge", In: ins, Out: []int{out}})
-		g.pool = append(g.pool, out)
-	case x < 68: // copy
-		in := g.input(maxDepth - 1)
-		n := []int{1, 2, 2, 2, 3, 3, 4, 5, 6}[r.Intn(9)]
-		if room := maxEndpoints - len(g.pool); n > room {
-			n = room
-		}
-		if n < 1 {
-			n = 1
-		}
-		outs := make([]int, n)
-		for i := range outs {
-			outs[i] = g.newReader()
-		}
-		g.add(opSpec{Kind: "copy", In: []int{in}, Out: outs, N: n})
-		g.pool = append(g.pool, outs...)
-	case x < 93: // convert
-		in := g.input(maxDepth - 1)
-		g.pool = append(g.pool, g.convert(in, false))
-	default: // pre-read a few items of a static (array-backed) single-strand reader before it is used further
-		for i, id := range g.pool {
-			rm := g.m.readers[id]
-			if rm.static && len(rm.strands) == 1 && len(rm.strands[0].Els) > 0 {
-				out := g.newReader()
-				g.add(opSpec{Kind: "skip", In: []int{id}, Out: []int{out}, N: r.Range(1, len(rm.strands[0].Els))})
-				g.pool[i] = out
-				return
-			}
-		}
-		g.pool = append(g.pool, g.newSource())
-	}
-}
-
-func genTree(r *mon.Rand) *tree {
-	g := &gen{r: r, t: &tree{}, m: newModel()}
-	g.t.Procs = []int{1, 4, 16}[r.Intn(3)]
-	probe := r.Prob(0.02)
-	if probe {
-		g.probe()
-	} else {
-		nOps := r.Range(1, 7)
-		for i := 0; i < nOps; i++ {
-			g.step()
-		}
-	}
-	if len(g.pool) == 0 {
-		g.pool = append(g.pool, g.newSource())
-	}
-	// endpoints, in a random start order
-	perm := r.Perm(len(g.pool))
-	for _, pi := range perm {
-		id := g.pool[pi]
-		rm := &g.m.readers[id]
-		e := endSpec{Reader: id, Pace: []int{0, 0, 0, 1, 1, 2}[r.Intn(6)], Close: true}
-		switch x := r.Intn(100); {
-		case probe:
-			e.Mode = modeCloseNow
-		case x < 45:
-			e.Mode = modeAll
-			e.Close = r.Prob(0.85)
-		case x < 82:
-			e.Mode = modePrefix
-			e.K = r.Range(0, rm.total())
-		default:
-			e.Mode = modeCloseNow
-		}
-		g.t.Ends = append(g.t.Ends, e)
-	}
-	g.m.finish(g.t)
-	// A writer that never closes would block a read-to-EOF forever: such readers read
-	// exactly the (deterministic) complete length instead, then close.
-	for s, spec := range g.m.srcs {
-		if !spec.Pipe || !spec.NeverClose {
-			continue
-		}
-		for _, ei := range g.m.derived[s] {
-			e := &g.t.Ends[ei]
-			if e.Mode == modeAll {
-				e.Mode = modePrefix
-				e.K = g.m.readers[e.Reader].total()
-				e.Close = true
+				m.sdrop[st.Src][q] = true
 			}
 		}
 	}
-	// Writers whose derived readers all close at once may be scripted to start only after
-	// those closes returned: then every Send is a "send after the last Close".
-	for _, spec := range sortedSrcs(g.m) {
-		if !spec.Pipe || len(g.m.derived[spec.ID]) == 0 {
-			continue
-		}
-		all := true
-		for _, ei := range g.m.derived[spec.ID] {
-			if g.t.Ends[ei].Mode != modeCloseNow {
-				all = false
-			}
-		}
-		if all && (probe || r.Prob(0.6)) {
-			spec.AfterEnds = true
+	for s, deep := range m.fdrop {
+		for q := range deep {
+			delete(m.sdrop[s], q) // dropped deep on some path: the deep class wins
 		}
 	}
-	g.t.m = g.m
-	return g.t
-}
-
-// probe: a small family of trees aimed at close propagation through a filtering
-// converter below a forwarder: Pipe -> converters (one of them dropping most or all
-// items) -> merge with other sources -> reader closed at once, writer starting late.
-func (g *gen) probe() {
-	r := g.r
-	in := g.newSourceWith(func(s *srcSpec) {
-		if !s.Pipe {
-			s.Pipe, s.Cap, s.Pace = true, r.Intn(5), r.Intn(2)
-		}
-		s.Items = make([]int8, r.Range(10, 18))
-		s.Continue, s.NeverClose = true, false
-	})
-	n := r.Range(1, 2)
-	hot := r.Intn(n)
-	for i := 0; i < n; i++ {
-		drop := 0
-		if i == hot {
-			drop = []int{16, 16, 14}[r.Intn(3)]
-		}
-		in = g.convertWith(in, false, func(c *convSpec) { c.Fail, c.Drop = 0, drop })
-	}
-	ins := []int{in}
-	for k := r.Range(1, 3); k > 0; k-- {
-		ins = append(ins, g.newSource())
-	}
-	out := g.newReader()
-	g.add(opSpec{Kind: "merge", In: ins, Out: []int{out}})
-	g.pool = append(g.pool, out)
 }
 
 // shape is the operator-tree shape without item contents and scripts.
@@ -756,9 +558,9 @@ func (t *tree) shape() string {
 	for _, op := range t.Ops {
 		switch op.Kind {
 		case "pipe":
-			fmt.Fprintf(&b, "P%d;", op.Src.Cap)
+			fmt.Fprintf(&b, "P%d%s;", op.Src.Cap, etNames[op.Src.Elem][:1])
 		case "array":
-			b.WriteString("A;")
+			fmt.Fprintf(&b, "A%s%d;", etNames[op.Src.Elem][:1], op.Src.SliceCap-len(op.Src.Items))
 		case "copy":
 			fmt.Fprintf(&b, "C%d(%d);", op.N, op.In[0])
 		case "merge":
@@ -773,6 +575,9 @@ func (t *tree) shape() string {
 			}
 			if op.Conv.Panic > 0 {
 				k += "p"
+			}
+			if op.Conv.From != op.Conv.To {
+				k += ">" + etNames[op.Conv.To][:1]
 			}
 			fmt.Fprintf(&b, "V%s(%d);", k, op.In[0])
 		case "skip":
